@@ -70,7 +70,7 @@ ATOMS = [b'x', b'BODY', b'HEADER', b'TEXT', b'MIME', b'1', b'0', b'-1', b'429496
 SEQS = [b'1', b'*', b'1:*', b'2:1', b'0', b'1,2,3', b'1:', b':', b'1:2:3', b'*:*', b'4294967296', b'1,,2', b'-1', b'1:*,*', b'99999999999999999999:1', b'a', b'']
 TOKS = [b'FLAGS', b'UID', b'ENVELOPE', b'BODY', b'BODYSTRUCTURE', b'INTERNALDATE', b'RFC822', b'RFC822.SIZE', b'RFC822.HEADER', b'RFC822.TEXT', b'BODY[]', b'BODY.PEEK[]', b'BODY[TEXT]<0.1>', b'BODY[]<0.0>',
         b'BODY[]<1>', b'BODY[]<4294967296.1>', b'BODY[1.1.1.1.1.1.1.1]', b'BODY[0]', b'BODY[HEADER.FIELDS ()]', b'BODY[HEADER.FIELDS (X)]', b'BINARY[]', b'BINARY.SIZE[]', b'ALL', b'FAST', b'FULL', b'EMAILID',
-        b'THREADID', b'MODSEQ', b'X-BOGUS', b'BODY[', b'BODY]', b'(FLAGS)', b'']
+        b'THREADID', b'MODSEQ', b'X-BOGUS', b'BODY[', b'BODY]', b'(FLAGS)', b'', b'BODY[HEADER.FIELDS ("X)Y" "q\\"r")]', b'BODY[HEADER.FIELDS.NOT ({3+}\r\na\rb)]', b'BODY[HEADER.FIELDS ("a(b" "]")]']
 KEYS = [b'ALL', b'SEEN', b'UNSEEN', b'NEW', b'OLD', b'FROM x', b'FROM "\xff"', b'SUBJECT {1+}\r\n\xff', b'HEADER X ""', b'HEADER', b'BODY x', b'TEXT ""', b'LARGER 1', b'LARGER -1', b'SMALLER 99999999999999999999',
         b'BEFORE 1-Jan-2020', b'ON 32-Jan-2020', b'SINCE 1-Foo-2020', b'SENTBEFORE "1-Jan-2020"', b'SENTON 1-Jan-99999', b'KEYWORD x', b'KEYWORD \\Seen', b'UNKEYWORD', b'UID 1:*', b'UID', b'1:*', b'NOT', b'OR',
         b'OR ALL', b'NOT NOT NOT ALL', b'()', b'(ALL', b'EMAILID x', b'THREADID Tabc', b'MODSEQ 1', b'X-BOGUS', b'CHARSET', b'DELETED UNDELETED', b'DRAFT', b'RECENT', b'BCC x CC y TO z']
